@@ -36,11 +36,41 @@ static void dump(int i, int k, long r, long g, void *pre, void *obj, int n, void
 static int disj(void *a, unsigned long na, void *b, unsigned long nb) {
   unsigned long x = (unsigned long)a, y = (unsigned long)b; return x + na <= y || y + nb <= x; }
 static void dirty(void) { volatile unsigned char junk[512]; for (int j = 0; j < 512; j++) junk[j] = 0xee; }
+/* storage classes pgend / pgstart: the object's last (first) byte is the last (first) byte of a page and the page
+   behind (before) it is inaccessible, so an access that is wider than the object or starts before it faults;
+   the handler names the walk and the step and the program goes on with the next walk */
+void *mmap(void *, unsigned long, int, int, int, long);
+int mprotect(void *, unsigned long, int);
+int __sigsetjmp(void *, int);
+void siglongjmp(void *, int);
+void *signal(int, void *);
+int fflush(void *);
+static void *pgalloc(unsigned long n, int where) {
+  char *m = mmap(0, 3 * 4096, 0, 0x22, -1, 0);
+  mprotect(m + 4096, 4096, 3);
+  return where == 1 ? m + 8192 - n : m + 4096;
+}
+static long env_[64]; static volatile int cur_i, cur_k;
+static void onfault(int sig) { printf("\nX %d %d %d\n", cur_i, cur_k, sig); siglongjmp(env_, 1); }
+#define INSTALL signal(11, onfault); signal(7, onfault)
+#define TRY(f) do { if (!__sigsetjmp(env_, 1)) f(); } while (0)
 '''
 IVAL = dict(ones=[255] * 8, pat=[165, 60, 90, 195, 105, 150, 30, 113], neg=[91, 194, 37, 188, 70, 169, 225, 142],
             one=[1, 0, 0, 0, 0, 0, 0, 0], zero=[0] * 8)
 OPC = [90, 165, 15, 240, 51, 204, 85, 170]
-STORAGES = ["global", "static", "auto", "heap", "complit"]
+STORAGES = ["global", "static", "auto", "heap", "complit", "pgend", "pgstart"]
+CLASSIC = STORAGES[:5]
+
+
+def copy_how(w):
+    """spelling of the whole-aggregate copy: obj = src / *p = *q / *p = ret(q) (struct returned by value)"""
+    if w.get("copyhow"):
+        return w["copyhow"]
+    if w["storage"] == "pgend":       # `return *q` moves a small aggregate through registers: the site where widths matter
+        return "ret"
+    if w["storage"] == "pgstart":
+        return "deref"
+    return pick(["assign", "deref", "ret"], w["sid"], w["salt"], "c")
 BASEFORMS = ["dot", "arrow", "addr_arrow", "deref_dot", "charcast"]
 IDXFORMS = ["index", "ptr_add", "rev_index"]
 
@@ -158,7 +188,7 @@ def render_walk(i, w):
     g = "G%d_" % i
     if storage == "global":
         src.append("char %spre[16]; T%d %sobj; char %spost[16]; T%d %ssrc;" % (g, i, g, g, i, g))
-    if (w.get("copyhow") or pick(["assign", "deref", "ret"], w["sid"], w["salt"], "c")) == "ret":
+    if copy_how(w) == "ret":
         src.append("static T%d ret%d(T%d *q) { return *q; }" % (i, i, i))
     zf = [s for s in steps if s["a"]["act"] == "zerofill"]
     f = ["static void f%d(void) {" % i]
@@ -174,16 +204,21 @@ def render_walk(i, w):
     elif storage == "heap":
         f.append(" char *pre = malloc(16); T%d *p = malloc(sizeof(T%d)); char *post = malloc(16); T%d *q = malloc(sizeof(T%d));" % (i, i, i, i))
         OBJ = "(*p)"
+    elif storage in ("pgend", "pgstart"):
+        wh = 1 if storage == "pgend" else 2
+        f.append(" char *pre = malloc(16); T%d *p = pgalloc(sizeof(T%d), %d); char *post = malloc(16); T%d *q = pgalloc(sizeof(T%d), %d);" % (i, i, wh, i, i, wh))
+        OBJ = "(*p)"
     else:
         f.append(" char *pre = (char[16]){0}; T%d *p = &(T%d){0}; char *post = (char[16]){0}; T%d *q = &(T%d){0};" % (i, i, i, i))
         OBJ = "(*p)"
-    f.append(" fill(pre, 16, 33); fill(p, sizeof *p, 97); fill(post, 16, 161); fill(q, sizeof *q, 19);")
+    f.append(" cur_i = %d; cur_k = 0; fill(pre, 16, 33); fill(p, sizeof *p, 97); fill(post, 16, 161); fill(q, sizeof *q, 19);" % i)
     f.append(' printf("A %d %%d %%d %%d\\n", (int)sizeof(T%d), (int)((unsigned long)p %% %d), disj(pre, 16, p, sizeof *p) && disj(post, 16, p, sizeof *p)'
              ' && disj(pre, 16, post, 16) && disj(q, sizeof *q, p, sizeof *p) && disj(q, sizeof *q, pre, 16) && disj(q, sizeof *q, post, 16));'
              % (i, i, t["al"]))
     for s in steps:
         a, k = s["a"], s["step"]
         act = a["act"]
+        f.append(" cur_k = %d;" % k)
         if act == "nested":
             p, r = paths[a["pi"] - 1], paths[a["pj"] - 1]
 
@@ -250,8 +285,8 @@ def render_walk(i, w):
                 f.append(" { static unsigned char vb[] = {%s}; __typeof__(%s) tmp; memcpy(&tmp, vb, sizeof tmp); %s = tmp;"
                          " dump(%d, %d, 0, 0, pre, p, sizeof *p, post, q); }" % (bs, plain, e, i, k))
         elif act == "copy":
-            how = w.get("copyhow") or pick(["assign", "deref", "ret"], w["sid"], w["salt"], "c")
-            x = {"assign": "%s = %s" % (OBJ, "(*q)" if storage in ("heap", "complit") else ("%ssrc" % g if storage == "global" else "src")),
+            how = copy_how(w)
+            x = {"assign": "%s = %s" % (OBJ, "(*q)" if storage in ("heap", "complit", "pgend", "pgstart") else ("%ssrc" % g if storage == "global" else "src")),
                  "deref": "*p = *q", "ret": "*p = ret%d(q)" % i}[how]
             f.append(" %s; dump(%d, %d, 0, 0, pre, p, sizeof *p, post, q);" % (x, i, k))
         elif act == "zerofill":
@@ -314,6 +349,14 @@ def judge_walk(i, w, lines):
         got = lines.get(("D", i, k))
         act = a["act"] + (":" + a["op"] if a["op"] else "")
         pid = paths[a["pi"] - 1]["id"] if a["pi"] else t["id"]
+        flt = lines.get(("X", i))
+        if flt is not None and int(flt[0]) == k:
+            # Level I (LValue.tla AccessI): the storage unit chibicc addresses for this bit-field reaches beyond the object
+            over = any(paths[j - 1].get("over") for j in (a["pi"], a.get("pj", 0)) if j)
+            if a["act"] == "copy":
+                pid = "%s:sz%d" % (copy_how(w), t["sz"])
+            return [("%s:%s:fault%s" % (act, pid, ":unit-beyond-object" if over else ""),
+                     "step %d: signal %s - an access outside the object, which %s at a page boundary" % (k, flt[1], "ends" if w["storage"] == "pgend" else "starts"))]
         if got is None:
             return [("%s:%s:no-output" % (act, pid), "step %d printed nothing" % k)]
         r, g, pre, obj, post, srcm = got
@@ -347,7 +390,8 @@ def run_batch(ctx, compiler, tree, items, render, tag, prelude=PRELUDE):
         fh.write(prelude)
         for i, c in items:
             fh.write(render(i, c))
-        fh.write("int main(void) {\n" + "".join(" f%d();\n" % i for i, _ in items) + " return 0; }\n")
+        fh.write("#ifndef TRY\n#define TRY(f) f()\n#define INSTALL\n#endif\n")
+        fh.write("int main(void) {\n INSTALL;\n" + "".join(" TRY(f%d);\n" % i for i, _ in items) + " return 0; }\n")
     exe = src[:-2] + ".exe"
     if compiler == "gcc":
         cmd = ["gcc", "-w", "-std=gnu11", "-O0", "-o", exe, src]
@@ -411,7 +455,7 @@ def check_walks(ctx, tree, walks, tag="walk", first=0):
     nret = 0
     for k, w in enumerate(walks):
         if w["shape"]["packed"] and 8 < w["shape"]["sz"] <= 16 and not w.get("copyhow") and len(walks) > 1:
-            how = pick(["assign", "deref", "ret"], w["sid"], w["salt"], "c")
+            how = copy_how(w)
             if how == "ret":
                 walks[k] = dict(w, copyhow="deref")
                 if nret < 2:
@@ -487,7 +531,9 @@ def load_walks(path):
 def with_storage(walks, seed, all_storages):
     out = []
     for n, w in enumerate(walks):
-        sts = STORAGES if all_storages else [STORAGES[(n + seed) % len(STORAGES)], STORAGES[(n + seed + 2) % len(STORAGES)]]
+        # quick: two of the five classic storage classes (rotating), the page-end placement for every shape and
+        # the page-start placement for every other one
+        sts = STORAGES if all_storages else ([CLASSIC[(n + seed) % 5], CLASSIC[(n + seed + 2) % 5], "pgend"] + (["pgstart"] if (n + seed) % 2 == 0 else []))
         for s in sts:
             out.append(dict(w, storage=s, salt=seed))
     return out
@@ -511,7 +557,10 @@ def tlc_models(ctx, q):
         mc("mem", "BitFieldI", "BitFieldI_mc.cfg", "wrong bit-field variant %s must be rejected" % v, expect_ok=False, R=6 if v != "bool_signed" else 8, Variant='"%s"' % v)
     mc("mem", "FrameI", "FrameI_mc.cfg", "assign_lvar_offsets: locals disjoint, aligned, inside the frame", MaxLocals=3 if q else 4)
     mc("mem", "FrameI", "FrameI_mc.cfg", "frame layout ignoring _Alignas must be rejected", expect_ok=False, MaxLocals=2, Variant='"no_alignas"')
+    for v in ("zero_round8", "zero_down8"):
+        mc("mem", "FrameI", "FrameI_mc.cfg", "zero fill of a re-initialised local (%s) must be rejected" % v, expect_ok=False, MaxLocals=2, Variant='"%s"' % v)
     mc("mem", "FrameI", "FrameI_mc.cfg", "alignment > 16 is not honoured (recorded finding)", expect_ok=False, MaxLocals=1, MaxAlign=32)
+    mc("mem", "LValue", "LValue_mc.cfg", "bit-field unit beyond the object (recorded finding)", expect_ok=False, MaxSteps=0, UnitCheck=True)
     mc("mem", "AllocaI", "AllocaI_mc.cfg", "alloca shuffle keeps temporaries and blocks (one block, sizes 1..48)", MaxSize=48, MaxBlocks=1)
     mc("mem", "AllocaI", "AllocaI_mc.cfg", "alloca shuffle keeps temporaries and blocks (two blocks)", MaxSize=20 if q else 48, MaxBlocks=2, workers=4)
     for v in ("copy_short", "copy_down", "no_bottom_update"):
@@ -527,7 +576,9 @@ def tlc_models(ctx, q):
             if "recorded finding" in what:
                 continue                      # the defect has been repaired in the model: nothing to report
             raise Infra("sensitivity control failed: TLC accepts %s %s (%s)" % (module, consts, what))
-        if not expect_ok and "recorded finding" in what and not res.ok:
+        if not expect_ok and "recorded finding" in what and not res.ok and module == "LValue":
+            ctx.report("extent:bitfield-unit-beyond-object", "a bit-field is loaded and stored through a storage unit of its declared type; in a packed struct/union the object can end before that unit does (TLC counterexample in LValue.tla, ExtentOK with UnitCheck = TRUE)")
+        elif not expect_ok and "recorded finding" in what and not res.ok:
             ctx.report("frame:overaligned-local", "assign_lvar_offsets: a local with _Alignas(32) is placed at rbp-k*32, but rbp is only 16-byte aligned (TLC counterexample in FrameI.tla, MaxAlign=32)")
 
 
